@@ -237,3 +237,29 @@ func FieldInt(p any, name string) int {
 	return int(f.Uint())
 }
 func FieldBool(p any, name string) bool { return field(p, name).Bool() }
+
+// eager boolean connectives (arguments are evaluated before the call: no branching in the engine)
+func OrB(a, b bool) bool  { return a || b }
+func AndB(a, b bool) bool { return a && b }
+func NotB(a bool) bool    { return !a }
+func IteInt(c bool, a, b int) int {
+	if c {
+		return a
+	}
+	return b
+}
+
+// BytesInRange: every byte of s lies in [lo,hi] and is none of the bytes of except.
+func BytesInRange(s string, lo, hi byte, except string) bool {
+	for i := 0; i < len(s); i++ {
+		if s[i] < lo || s[i] > hi {
+			return false
+		}
+		for k := 0; k < len(except); k++ {
+			if s[i] == except[k] {
+				return false
+			}
+		}
+	}
+	return true
+}
